@@ -278,6 +278,16 @@ def rule_r6(ctx):
         ch, cl = kw.get("chunks"), kw.get("content_length")
         body_none = r.is_none(B)
         strb = r.isinst(B, "str", "bytes")
+        if strb is None:
+            # isinstance(body, str) or isinstance(body, bytes): two tests instead of one
+            parts_ = {}
+            for k_, v_ in r.st.ts.items():
+                if isinstance(k_, tuple) and k_ and k_[0] == "isinst" and k_[1] == B and len(k_[2]) == 1 and k_[2][0] in ("builtins.str", "builtins.bytes"):
+                    parts_[k_[2][0]] = v_
+            if any(parts_.values()):
+                strb = True
+            elif len(parts_) == 2:
+                strb = False
         has_read = r.truth(T("hasattr", B, K("read")))
         if has_read is None and r.is_none(T("getattr", B, K("read"), "None")) is not None:
             has_read = not r.is_none(T("getattr", B, K("read"), "None"))
